@@ -195,8 +195,8 @@ impl Scenario for C20 {
     const LEVEL: &'static str = "exploration";
     fn runs(tier: Tier) -> u64 {
         match tier {
-            Tier::Quick => 60_000,
-            Tier::Thorough => 2_000_000,
+            Tier::Quick => 200_000,
+            Tier::Thorough => 5_000_000,
         }
     }
     fn rule() -> &'static str {
